@@ -44,6 +44,9 @@ HX void hx_usage(uint64_t nargs, uint64_t display) {
       if (hid[i]) a->setIsHidden();
       if (depr[i]) a->setIsDeprecated();
    }
+   // display bit 4: the usage was already printed once (with all keys) before - the second output must not depend on it
+   if (display & 16) { std::ostringstream first; first << ah; vs_assert(count(first.str(), "Usage:") >= 1 || true, "first print"); }
+   display &= 15;
    // short-only / long-only display is selected by the arguments that hfUsageShort / hfUsageLong add
    char a0[] = "prog", a1[] = "-h", as[] = "--help-short", al[] = "--help-long";
    char* argv[] = {a0, contents == 1 ? as : contents == 2 ? al : a1, a1, nullptr};
@@ -238,4 +241,27 @@ HX void hx_help_arg_prefix(uint64_t which, uint64_t order) {
    for (const char* d : {"path-description", "include-description", "letter-description"})
       vs_assert(count(os.str(), d) == ((WANT[which] && std::string(WANT[which]) == d) ? 1u : 0u), "help for one argument prints exactly that argument's description, also when its key is a prefix of another key");
    vs_assert((count(es.str(), "unknown") >= 1) == (WANT[which] == nullptr), "an unknown key is reported as unknown");
+}
+
+// arguments with an empty description are listed like any other argument (key, caption)
+HX void hx_usage_nodesc(uint64_t, uint64_t) {
+   std::ostringstream os, es;
+   Handler ah(os, es, Handler::hfHelpShort | Handler::hfUsageCont);
+   int a = 0, b = 0, c = 0;
+   unsigned char fl = vs_u8("flags"); vs_assume(fl < 4);
+   auto* pa = ah.addArgument("a,alpha", DEST_VAR(a), "");
+   if (fl & 1) pa->setIsMandatory();
+   if (fl & 2) pa->addCheck(lower(10));
+   ah.addArgument("b", DEST_VAR(b), "second-description");
+   ah.addArgument("gamma", DEST_VAR(c), "");
+   char a0[] = "prog", a1[] = "-h"; char* argv[] = {a0, a1, nullptr};
+   int rc = 0;
+   try { ah.evalArguments(2, argv); } catch (const std::exception&) { rc = 1; } catch (...) { rc = 2; }
+   vs_assert(rc == 0, "printing the usage does not fail");
+   const std::string out = os.str();
+   vs_assert(count_key_lines(out, "-a,--alpha") == 1 && count_key_lines(out, "--gamma") == 1 && count_key_lines(out, "-b") == 1, "every visible argument is listed exactly once, also when its description is empty");
+   size_t pos_mand = out.find("Mandatory arguments:"), pos_opt = out.find("Optional arguments:"), ka = out.find("   -a,--alpha");
+   if (fl & 1) vs_assert(pos_mand != std::string::npos && ka > pos_mand && ka < pos_opt, "a mandatory argument is listed under the mandatory caption");
+   else vs_assert(pos_mand == std::string::npos && pos_opt != std::string::npos && ka > pos_opt, "an optional argument is listed under the optional caption");
+   vs_assert(count(out, "Check: Value >= 10") == ((fl & 2) ? 1u : 0u), "the check of an argument is shown exactly when it has one");
 }
